@@ -34,8 +34,26 @@ Theorem C02_fwd_inv_open : forall w p g ik K k0, 0 < w -> 1 < p -> 4 * p <= 2 ^ 
 Proof. exact closed_fwd_inv. Qed.
 Print Assumptions C02_fwd_inv_open.
 
+(* the structure of core::ntt, open form: equal to the generic layer-by-layer transform for ANY words of the right length
+   (forward: the twist already reduces) / any canonical words (inverse) *)
+Theorem C02_structure_fwd_open : forall w p g K k0, 0 < w -> 1 < p -> 4 * p <= 2 ^ w ->
+  (g ^ (2 ^ Z.of_nat K)) mod p = p - 1 -> (S k0 <= K)%nat ->
+  forall x, length x = (2 ^ S k0)%nat -> ntt_fwd_s w p g K k0 x = ntt_fwd w p g K k0 x.
+Proof. exact closed_struct_fwd. Qed.
+Print Assumptions C02_structure_fwd_open.
+
+Theorem C02_structure_inv_open : forall w p g ik K k0, 0 < w -> 1 < p -> 4 * p <= 2 ^ w ->
+  (g ^ (2 ^ Z.of_nat K)) mod p = p - 1 -> (S k0 <= K)%nat ->
+  forall y, canonical p k0 y -> ntt_inv_s w p g ik K k0 y = ntt_inv w p g ik K k0 y.
+Proof. exact closed_struct_inv. Qed.
+Print Assumptions C02_structure_inv_open.
+
 (* non-vacuity: the model run on a real row reproduces the words the real library printed (degree 8, p = 15361) *)
 Example C02_nonvacuous :
   ntt_fwd 16 15361 4989 9 2 (3 :: 5690 :: 11377 :: 1703 :: 7390 :: 13077 :: 3403 :: 9090 :: nil)
+  = 7469 :: 12413 :: 6176 :: 2160 :: 4334 :: 3724 :: 10584 :: 14608 :: nil.
+Proof. vm_compute. reflexivity. Qed.
+Example C02_nonvacuous_structure :
+  ntt_fwd_s 16 15361 4989 9 2 (3 :: 5690 :: 11377 :: 1703 :: 7390 :: 13077 :: 3403 :: 9090 :: nil)
   = 7469 :: 12413 :: 6176 :: 2160 :: 4334 :: 3724 :: 10584 :: 14608 :: nil.
 Proof. vm_compute. reflexivity. Qed.
